@@ -20,19 +20,23 @@ PROPS = {
     "C03": {
         "families": ["C03"],
         "nontrivial": _ok_obs,
-        "rule": "round trip: random fully segmented sentences (<=12 chars, 35% format-special characters) with 0-3 tags per token; "
+        "rule": "ALL 1,112,063 non-NUL Unicode scalar values, 64 per case, each as a one-character token tagged with itself: written, re-parsed, "
+                "compared (escaping of every character in surface and tag position); "
+                "round trip: random fully segmented sentences (<=12 chars, 35% format-special characters) with 0-3 tags per token; "
                 "idempotence: every string of length <=4 (quick) / <=6 (thorough) over {a,あ,space,/,\\,NUL,𠮷} plus random strings; "
                 "non-trivial = distinct case whose parser/constructor succeeded",
-        "scopes": {"quick": "all strings len<=4 over 7 symbols", "thorough": "all strings len<=6 over 7 symbols"},
+        "scopes": {"quick": "all Unicode scalar values as token and tag; all strings len<=4 over 7 symbols", "thorough": "all Unicode scalar values; all strings len<=6 over 7 symbols"},
         "assumptions": [],
     },
     "C04": {
         "families": ["C04"],
         "nontrivial": _ok_obs,
-        "rule": "round trip: random sentences (<=10 chars) x labels in {N,W,U} x 0-3 tags per character, tags drawn with 60% "
+        "rule": "ALL 1,112,063 non-NUL Unicode scalar values, 64 per case, each as a one-character token tagged with itself: written in the "
+                "partial-annotation format, re-parsed, compared; "
+                "round trip: random sentences (<=10 chars) x labels in {N,W,U} x 0-3 tags per character, tags drawn with 60% "
                 "delimiter characters; parser correspondence on every string len<=4 (quick) / <=5 (thorough) over 8 symbols; "
                 "non-trivial = distinct case whose constructor succeeded",
-        "scopes": {"quick": "all strings len<=4 over 8 symbols (parser)", "thorough": "all strings len<=5 over 8 symbols"},
+        "scopes": {"quick": "all Unicode scalar values as token and tag; all strings len<=4 over 8 symbols (parser)", "thorough": "all Unicode scalar values; all strings len<=5 over 8 symbols"},
         "assumptions": [],
     },
     "C05": {
